@@ -3,9 +3,13 @@
     S = the denotational specification Ast/Spec.v ([spec_reads], [spec_writes]).
     What is proved here about M: statements that move no data report nothing, unsupported
     statements are refused or skipped, and the refutation witnesses (known findings).
-    Exactness M = S on the guarded core grammar is checked by correspondence on generated
-    statements on every run, not proved (DESIGN.md section 6, C01: Lemma A is future work). *)
+    Lemma A ([c01_exact_on_rendered_core]): on the rendered core fragment ([stmt_ok], [sshape]) with
+    arbitrary trivia between tokens, M = S, for every statement of unbounded size and nesting depth.  The rendering function
+    Tree/Render.v is tied to the parser on every run (suite T3-render: same tree as the parser's, up
+    to trivia).  Outside that fragment (expressions, join groups, other dialect shapes) exactness
+    M = S is checked by correspondence on generated statements on every run, not proved. *)
 From SV Require Import Tree.Observe Tree.BasicProofs Ast.Spec Ast.SpecRec Props.Witness.
+From SV Require Import Tree.Render Tree.LemmaA Tree.LemmaAProofs.
 
 Theorem c01_nodata : forall e silent t g c r w cm mt ch,
   In t NOOP_TYPES -> analyze e silent (Seg t g c r w cm mt ch) = Ok empty_graph.
@@ -60,3 +64,33 @@ Theorem c01_recursive_conservative : forall fuel ds ctes q,
   self_free fuel ds ctes q -> q_reads_rec fuel ds ctes q = q_reads fuel ds ctes q.
 Proof. exact q_reads_rec_self_free. Qed.
 Print Assumptions c01_recursive_conservative.
+
+(** Lemma A (tables).  For every trivia list, every metadata-free non-vertica environment, and every
+    statement of the core fragment (INSERT [with column list] / CREATE TABLE AS / CREATE VIEW AS / bare query over
+    SELECTs with column or star items, base tables with optional schema and alias, derived tables,
+    WHERE-IN sub-queries and unions nested to any depth, an outermost WITH) the tree walker reports exactly
+    the tables the specification prescribes. *)
+Theorem c01_exact_on_rendered_core : forall noise e s,
+  noise_ok noise = true -> env_ok e = true -> stmt_ok s = true -> sshape s = true ->
+  stmt_reads (analyze e false (r_stmt noise s)) = sort_strings (spec_reads (e_cfg e) s) /\
+  stmt_writes (analyze e false (r_stmt noise s)) = sort_strings (spec_writes (e_cfg e) s).
+Proof. exact lemma_A_tables_restricted. Qed.
+Print Assumptions c01_exact_on_rendered_core.
+
+(** the hypotheses are satisfiable by a non-trivial statement *)
+Example c01_lemma_A_nonvacuous :
+  let s := SInsert (Some "s3", "out1") (Some ["c0"])
+             (QWith "c1" (QSelect [IExpr (EColRef None "x") None] [RTable (Some "s1", "t1") None] false None)
+                (QSelect [IExpr (EColRef (Some "d") "x") None]
+                   [RTable (None, "c1") None; RDerived (QUnion (QSelect [IStar None] [RTable (None, "t4") None] false None)
+                                                               (QSelect [IStar None] [RTable (Some "db1.s4", "t6") (Some "z")] false None)) "d"]
+                   false (Some ("x", QSelect [IExpr (EColRef None "k") None] [RTable (Some "s2", "t3") (Some "p")] false None)))) in
+  stmt_ok s && sshape s && env_ok env0 = true
+  /\ spec_reads "" s = ["s1.t1"; "<default>.t4"; "db1.s4.t6"; "s2.t3"].
+Proof. split; vm_compute; reflexivity. Qed.
+
+(** Without [sshape] the statement is false of the model: the proof attempt produced counterexamples, two of which
+    are defects of the implementation (recorded as K-C01-5, K-C01-6 and replayed against it on every run). *)
+Theorem c01_lemma_A_unrestricted_refuted : ~ lemma_A_tables_statement.
+Proof. exact lemma_A_tables_statement_refuted. Qed.
+Print Assumptions c01_lemma_A_unrestricted_refuted.
